@@ -1,13 +1,21 @@
 """C05 — no two services ever own the same host and path."""
+import json
 import os
 from m4check import run_property
 from vlib import *
 
 
+REGIONS = []      # recorded sequences of write-lock regions (install / removed), one per scenario / race round: (origin, [region])
+
+
 def race_stress(res, work, tier):
-    """Concurrent form of 'exactly one of several racing deploys succeeds' (real scheduler)."""
+    """Concurrent form of 'exactly one of several racing deploys succeeds' (real scheduler).  Two passes: racers with 3000
+    private hosts each (a long availability check: a wide race window; counted only), and racers with 24 private hosts each whose
+    sequence of lock regions is RECORDED for the ownership view model/M5own.v (plus a second wave racing for the pair the
+    removed winner released)."""
+    files = ["common_test.go", "sim_test.go", "simrun_test.go", "assets_test.go", "c05_race_test.go"]
     rounds = 12 if tier == "quick" else 120
-    rc, out = go_test(work, ["common_test.go", "sim_test.go", "simrun_test.go", "assets_test.go", "c05_race_test.go"],
+    rc, out = go_test(work, files,
                       "^TestVerifC05Race$", {"VERIF_OUT": work.path("race.jsonl"), "VERIF_ROUNDS": str(rounds), "GODEBUG": "", "GOGC": "100"},
                       timeout=900, synctest=True)   # synctest only so that the shared harness files compile; real scheduler
     if rc != 0 or not os.path.exists(work.path("race.jsonl")):
@@ -15,7 +23,72 @@ def race_stress(res, work, tier):
     rows = read_jsonl(work.path("race.jsonl"))
     bad = [r for r in rows if r["succeeded"] != 1 or r["owners_listed"] != 1]
     res.coverage["race_stress"] = {"rounds": len(rows), "racers_per_round": 8, "rounds_with_exactly_one_winner": len(rows) - len(bad)}
+    if bad:
+        return True, bad, out
+    rounds2 = 40 if tier == "quick" else 400
+    rc, out = go_test(work, files, "^TestVerifC05Race$",
+                      {"VERIF_OUT": work.path("race2.jsonl"), "VERIF_ROUNDS": str(rounds2), "VERIF_HOSTS": "24", "VERIF_RECORD": "1",
+                       "GODEBUG": "", "GOGC": "100"}, timeout=900, synctest=True)
+    if rc != 0 or not os.path.exists(work.path("race2.jsonl")):
+        return False, [], out
+    rows = read_jsonl(work.path("race2.jsonl"))
+    bad = [dict(r, regions=None) for r in rows if r["succeeded"] != 1 or r["owners_listed"] != 1 or r["second_wave_succeeded"] != 1]
+    for r in rows:
+        REGIONS.append(({"race_round": r["round"], "results": r["results"]}, r["regions"] or []))
+    res.coverage["race_stress_recorded"] = {"rounds": len(rows), "racers_per_round": 8, "second_wave_racers": 7,
+                                            "rounds_with_exactly_one_winner_in_both_waves": len(rows) - len(bad)}
     return True, bad, out
+
+
+def region_term(r):
+    hx = lambda x: str_lit(bytes.fromhex(x))
+    if r["k"] == "install":
+        return "OInstall %s %s %s %s" % (str_lit(r["name"].encode("utf-8", "surrogateescape")), list_lit([hx(h) for h in r["hosts"]]),
+                                         list_lit([hx(p) for p in r["prefixes"]]), bool_lit(r["ok"]))
+    return "ORemove %s" % str_lit(r["name"].encode("utf-8", "surrogateescape"))
+
+
+def regions_of_events(events):
+    """the install / removed hook events of a sim trace, in trace order (= lock order)"""
+    out = []
+    for e in events:
+        a = e["args"]
+        if e["kind"] == "install" and len(a) >= 4:
+            out.append({"k": "install", "name": a[0].split(":", 1)[1], "hosts": a[2], "prefixes": a[3], "ok": bool(a[1])})
+        elif e["kind"] == "removed":
+            out.append({"k": "removed", "name": a[0].split(":", 1)[1]})
+    return out
+
+
+def ownership_view(res, work, tier):
+    """Every recorded sequence of table-changing lock regions must be accepted by model/M5own.v (theorems: props/C05conc.v) and
+    satisfy the monitor c05c_ok (each pair owned once after every region, rebuilt from the successful regions alone)."""
+    import m4x
+    if not REGIONS:
+        return False, [], "CORRESPONDENCE: no lock-region sequence was recorded (install hook events carry no options?)"
+    terms = ["(%s : list oev)" % list_lit([region_term(r) for r in regs]) for _, regs in REGIONS]
+    vals = m4x.coq_map(work, "From KP Require Import model.Base model.ServiceMap model.M5own.", "", terms,
+                       "fun l => (oaccepted l, c05c_ok l, ofirst_reject [] l 0)", "C05own", shard=max(1, len(terms) // 16 + 1))
+    mon_bad, rej = [], []
+    wins = installs = removes = 0
+    for (origin, regs), v in zip(REGIONS, vals):
+        acc, okk, first = v
+        installs += len([r for r in regs if r["k"] == "install"])
+        wins += len([r for r in regs if r["k"] == "install" and r["ok"]])
+        removes += len([r for r in regs if r["k"] == "removed"])
+        if not okk:
+            mon_bad.append({"origin": origin, "regions": regs, "what": "two services own one (host, path prefix) pair after a lock region "
+                            "of the recorded sequence (corr monitor M5own.c05c_ok false)",
+                            "replay_note": "the scenario / race round under 'origin' (harness/sim_test.go TestVerifSim or harness/c05_race_test.go)"})
+        elif not acc:
+            rej.append({"origin": origin, "regions": regs, "first_rejected_region": first})
+    res.coverage["ownership_view"] = {"sequences": len(REGIONS), "install_regions": installs, "successful": wins, "remove_regions": removes,
+                                      "accepted": len(REGIONS) - len(rej) - len(mon_bad), "monitor_failures": len(mon_bad)}
+    if mon_bad:
+        return True, mon_bad, ""
+    if rej:
+        return False, [], "CORRESPONDENCE: a recorded sequence of write-lock regions is not accepted by model/M5own.v (theorems props/C05conc.v): " + json.dumps(rej[0])[:2500]
+    return True, [], ""
 
 
 def interleaved(res, work, tier, seed=1):
@@ -69,6 +142,8 @@ def interleaved(res, work, tier, seed=1):
     ok, gout, outs = m5.run_scenarios(work, scenarios)
     if not ok:
         return False, [], gout
+    for j, o in enumerate(outs):
+        REGIONS.append(({"interleaved_scenario": scenarios[j]}, regions_of_events(o["events"])))
     terms, where = [], []
     for j, o in enumerate(outs):
         for r in o["results"]:
@@ -93,15 +168,19 @@ def interleaved(res, work, tier, seed=1):
 
 
 def both(res, work, tier):
+    del REGIONS[:]
     ok, bad, out = interleaved(res, work, tier)
     if not ok or bad:
         return ok, bad, out
-    return race_stress(res, work, tier)
+    ok, bad, out = race_stress(res, work, tier)
+    if not ok or bad:
+        return ok, bad, out
+    return ownership_view(res, work, tier)
 
 
 def run(tier, seed):
     return run_property(
-        "C05", tier, seed, ["C05.v", "M4link.v"], ["props/C05.vo", "props/M4link.vo"],
+        "C05", tier, seed, ["C05.v", "C05conc.v", "M4link.v"], ["props/C05.vo", "props/C05conc.vo", "props/M4link.vo"],
         profile={"deploy": 14, "deploy_fail": 2, "remove": 5, "restart": 2, "rollout_deploy": 1, "rollout_set": 0,
                  "rollout_stop": 0, "pause": 1, "stop": 1, "resume": 1},
         monitor="c05_ok h", n_quick=40, n_thorough=600, extra=both)
